@@ -1,9 +1,12 @@
 """C09 - derived names are valid identifiers and never merge silently."""
 from __future__ import annotations
 
+import ast
+
 from typing import Any
 
 from ..charclass import EITHER, S, L, bad_identifier_chars, members
+from ..astutil import norm
 from ..core import PKG, Report
 from ..domain import IDENT
 from .registries import check_module_files, check_registries
@@ -58,12 +61,17 @@ def run(rep: Report, ctx: Any) -> str:
     f = ix.func("EnumProperty.values_from_list")
     ch.stores = []
     ch.run_function(f, {"values": EITHER, "class_info": None})
-    stores = [s for s in ch.stores if s[0] == "output"]
+    # the member table is whatever the function returns; the member value is the element variable of the loop over `values`
+    returned = {norm(r.value) for r in ast.walk(f.node) if isinstance(r, ast.Return) and r.value is not None}
+    vloops = [lp for lp in ast.walk(f.node) if isinstance(lp, ast.For) and norm(lp.iter).startswith("enumerate(values") and isinstance(lp.target, ast.Tuple)]
+    rep.require(vloops, "loop over enumerate(values) in values_from_list")
+    vv = norm(vloops[0].target.elts[1])
+    stores = [s for s in ch.stores if s[0] in returned]
     rep.floor("enum_member_stores", len(stores), 3)
     seen: dict[str, int] = {}
     for cont, k, cond, line in stores:
-        kind = "int" if "isinstance(value, int)" in cond and "not(isinstance(value, int))" not in cond else "str"
-        sub = "alpha" if "& value and value[0].isalpha()" in cond or cond.endswith("value[0].isalpha()") else "positional"
+        kind = "int" if f"isinstance({vv}, int)" in cond and f"not(isinstance({vv}, int))" not in cond else "str"
+        sub = "alpha" if f"& {vv} and {vv}[0].isalpha()" in cond or cond.endswith(f"{vv}[0].isalpha()") else "positional"
         name = f"EnumProperty.values_from_list::member-name[{kind}" + (f",{sub}" if kind == "str" else "") + "]"
         seen[name] = seen.get(name, 0) + 1
         key = name + (f"#{seen[name]}" if kind == "int" else "")
